@@ -48,6 +48,10 @@
   `job_name`, `payload.max_samples`, `payload.max_shots`, `payload.job_context`
   (`result_mapping`, `mapping_delta_parameters`).  Command delta parameters are restricted to the
   `max_samples` key and mapping delta parameters to `{max_samples, max_shots}` (what `Sampler` builds).
+  The `rest` token stands for the request *as it leaves for the server* (`serialize(body)` encoded as JSON);
+  a stored body equals the request only if writing it to the file and reading it back does not change
+  that form, which is the case exactly for bodies made of JSON values: `Job.js` records whether the body
+  is one, and `prep` (hence every save) refuses a body that is not, as `json.dumps` does.
   Core Lean only.
 -/
 import PercevalModel.Found.SM
@@ -124,6 +128,11 @@ structure Job where
   dmap : Option MapDelta         -- `_delta_parameters['mapping']` (none = empty dict)
   res : Bool := false            -- `_results` is truthy: results were downloaded and are cached
   dp : Bool := true              -- `_delta_parameters` still is `{'command': …, 'mapping': …}` (see `Variant.resFix`)
+  js : Bool := true              -- the request data hold JSON values only (`json.dumps` of the body succeeds).  A job
+                                 --   built by a `Sampler` with iterations keeps `BasicState` / `NoiseModel` objects in
+                                 --   `payload['iterator']`; `execute_async` sends `serialize(body)`, which has a JSON
+                                 --   form, but `_write_to_file` calls `json.dumps` on the body itself → `TypeError`.
+                                 --   A job read back from the file is made of JSON values (`fromDict`: default).
   deriving DecidableEq, Repr
 
 inductive Err where
@@ -191,8 +200,16 @@ def toDict (j : Job) : DJob :=
     hd := j.hd,
     body := if j.st.isSuccess then none else j.req }
 
-/-- what `_to_dict` does to the job first: prepare the request unless SUCCESS -/
-def prep (j : Job) : Except Err Job := if j.st.isSuccess then .ok j else norm j
+/-- what saving the group asks of one job: `_to_dict` prepares the request unless SUCCESS (then there is no body),
+and `json.dumps` must be able to write that body: a body holding a value that is not JSON makes
+`_write_to_file` raise `TypeError` before the file is touched.  (In the code `json.dumps` runs once every
+`_to_dict` has returned; folding its test into the per-job step changes neither the outcome — an error,
+the file untouched — nor, on a group whose other jobs are all saved already, which error it is.) -/
+def prep (j : Job) : Except Err Job :=
+  if j.st.isSuccess then .ok j
+  else match norm j with
+    | .error e => .error e
+    | .ok j' => if j'.js then .ok j' else .error .typeError
 
 /-- `_to_json`: every job prepared in list order; the first failure aborts -/
 def saveAll : List Job → Except Err (List Job)
